@@ -237,9 +237,9 @@ private:
 
     struct DepthControl
     {
-        DepthControl(int& depth);
+        DepthControl(int& depth, int maxDepth, const char* limitMessage);
         ~DepthControl();
-        int depth_;
+        int& depth_;
     };
     friend struct DepthControl;
 
